@@ -43,11 +43,20 @@ func c15Key(depth int, msgs []c15Msg) (command.SearchKey, c15Eval) {
 	nLeaf := 14
 	total := nLeaf
 	if depth > 0 {
-		total += 3
+		total += []int{0, 1, 3}[vsymParam("comp")] // composite keys offered: none / NOT / NOT, OR, list
 	}
 	has := func(bit int) c15Eval { return func(i int) bool { return msgs[i].flags&bit != 0 } }
 	not := func(e c15Eval) c15Eval { return func(i int) bool { return vsymNot(e(i)) } }
-	switch vsymChoice("key", total) {
+	var which int
+	if vsymParam("sets") == 1 { // message-set keys only (single and two-range sets), see VerifC15Search
+		which = []int{11, 12, 14, 15}[vsymChoice("setKey", 4)]
+	} else {
+		which = vsymChoice("key", total)
+		if which >= 14 {
+			which += 2
+		}
+	}
+	switch which {
 	case 0:
 		return &command.SearchKeyAll{}, func(int) bool { return true }
 	case 1:
@@ -103,10 +112,34 @@ func c15Key(depth int, msgs []c15Msg) (command.SearchKey, c15Eval) {
 	case 13:
 		d := int64(vsymRange("before", 0, 4102444800))
 		return &command.SearchKeyBefore{Value: time.Unix(d, 0)}, func(i int) bool { return msgs[i].date < d }
-	case 14:
+	case 14: // UID set of two ranges with symbolic ends (either order, overlapping, nested or disjoint)
+		var r [4]int
+		for j := range r {
+			r[j] = vsymRange("uid2", 1, 4294967295)
+		}
+		key := &command.SearchKeyUID{SeqSet: []command.SeqRange{{Begin: command.SeqNum(r[0]), End: command.SeqNum(r[1])}, {Begin: command.SeqNum(r[2]), End: command.SeqNum(r[3])}}}
+		return key, func(i int) bool {
+			u := int(msgs[i].uid)
+			in1 := vsymOr(vsymAnd(r[0] <= u, u <= r[1]), vsymAnd(r[1] <= u, u <= r[0]))
+			in2 := vsymOr(vsymAnd(r[2] <= u, u <= r[3]), vsymAnd(r[3] <= u, u <= r[2]))
+			return vsymOr(in1, in2)
+		}
+	case 15: // sequence set of two ranges with symbolic ends inside the view
+		var r [4]int
+		for j := range r {
+			r[j] = vsymRange("seq2", 1, n)
+		}
+		key := &command.SearchKeySeqSet{SeqSet: []command.SeqRange{{Begin: command.SeqNum(r[0]), End: command.SeqNum(r[1])}, {Begin: command.SeqNum(r[2]), End: command.SeqNum(r[3])}}}
+		return key, func(i int) bool {
+			q := i + 1
+			in1 := vsymOr(vsymAnd(r[0] <= q, q <= r[1]), vsymAnd(r[1] <= q, q <= r[0]))
+			in2 := vsymOr(vsymAnd(r[2] <= q, q <= r[3]), vsymAnd(r[3] <= q, q <= r[2]))
+			return vsymOr(in1, in2)
+		}
+	case 16:
 		k, e := c15Key(depth-1, msgs)
 		return &command.SearchKeyNot{Key: k}, not(e)
-	case 15:
+	case 17:
 		k1, e1 := c15Key(depth-1, msgs)
 		k2, e2 := c15Key(depth-1, msgs)
 		return &command.SearchKeyOr{Key1: k1, Key2: k2}, func(i int) bool { return vsymOr(e1(i), e2(i)) }
@@ -130,13 +163,20 @@ func VerifC15Search() {
 		u := vsymUint32("uid")
 		vsymAssume(u > prev)
 		prev = u
-		fl := c15FlagSets[vsymChoice("flags", len(c15FlagSets))]
+		sets := vsymParam("sets") == 1
+		fl := 0
+		if !sets {
+			fl = c15FlagSets[vsymChoice("flags", len(c15FlagSets))]
+		}
 		id := w.addMessage(a, imap.UID(u), c15Flags(fl)...)
 		row := a.Row(id.InternalID)
 		row.Deleted = fl&vfDeleted != 0
 		m := w.db.Msg(id.InternalID)
-		m.Size = vsymRange("size", 0, 1<<40)
-		d := int64(vsymRange("date", 0, 4102444800))
+		d := int64(0)
+		if !sets {
+			m.Size = vsymRange("size", 0, 1<<40)
+			d = int64(vsymRange("date", 0, 4102444800))
+		}
 		m.Date = time.Unix(d, 0)
 		msgs[i] = c15Msg{uid: u, flags: fl, size: m.Size, date: d}
 	}
@@ -152,7 +192,7 @@ func VerifC15Search() {
 	}
 	key, eval := c15Key(depth, msgs)
 	keys := []command.SearchKey{key}
-	if vsymChoice("twoKeys", 2) == 1 { // juxtaposition = intersection
+	if vsymParam("sets") == 0 && vsymChoice("twoKeys", 2) == 1 { // juxtaposition = intersection
 		k2, e2 := c15Key(0, msgs)
 		keys = append(keys, k2)
 		e1 := eval
